@@ -262,7 +262,8 @@ def run_compare(case, ctx):
         ctx.label("excluded_date_override")
         return
     va = B.vector(a)
-    ops = CMP + (LOGIC if ka == "bool" and kb == "bool" else [])
+    # & | ^ are Python's own operators too: on ints they work on bits (1 & 2 == 0 although both are truthy)
+    ops = CMP + (LOGIC if ka in ("bool", "int") and kb in ("bool", "int") else [])
     for name, op in ops:
         for form in ("vector", "list", "tuple", "scalar", "self", "scalar_none"):
             if form == "scalar":
@@ -383,6 +384,18 @@ def run_table(case, ctx):
             return ctx.fail(f"table-{case['rows'][0]}/not-uniform-or-wrong", f"{case['rows']}: got {got} want {want}")
         if list(r.column_names()) != names:
             return ctx.fail(f"table-{case['rows'][0]}/names", f"{r.column_names()} vs {names}")
+    # a boolean mask of another length than the table is an error (shorter as well as longer; list and vector form)
+    for wrong in ([True] * (n + 1), [True] * (n + 2), [True] * (n - 1) if n >= 2 else None, [False] * (n - 2) if n >= 3 else None):
+        if wrong is None:
+            continue
+        for mk in (list(wrong), S.Vector(list(wrong))):
+            ctx.ev()
+            try:
+                rr = t[mk]
+            except Exception:  # noqa: BLE001
+                continue
+            return ctx.fail(f"table-mask/wrong-length-accepted/{'shorter' if len(wrong) < n else 'longer'}",
+                            f"a mask of {len(wrong)} on a table of {n} rows returned {type(rr).__name__} of {len(rr)} rows")
     # integer row indices: t[i] is the i-th row for -n <= i < n (Python sequence semantics), anything else is an error
     # (raised by t[i] or as soon as the row is read)
     for i in range(-2 * n - 2, n + 3):
